@@ -11,6 +11,7 @@ import (
 
 	"github.com/AsaiYusuke/jsonpath"
 
+	"verif/h/gen"
 	"verif/h/impl"
 )
 
@@ -379,11 +380,95 @@ func Scenarios(tier string) []Scenario {
 		out = append(out, Scenario{Name: "S5 " + pq[0] + " || " + pq[1] + " on one document", Fns: []FnSpec{{pq[0], 0}, {pq[1], 0}}, Docs: []string{`[{"a":0},{"a":1}]`},
 			Threads: [][]Op{{call(0, 0)}, {call(1, 0)}}})
 	}
+	out = append(out, generated(tier)...)
 	// S6: two operations per thread
 	for _, ci := range []int{14, 17, 27, 28, 29, 32, 38, 41, 44, 49} {
 		c := Corpus[ci]
 		out = append(out, Scenario{Name: "S6 Parse;call || call;call " + c.Path, Fns: []FnSpec{{c.Path, c.Cfg}}, Docs: []string{c.D1, c.D2},
 			Threads: [][]Op{{parse(FnSpec{c.Path, c.Cfg}), call(0, 0)}, {call(0, 1), call(0, 0)}}})
+	}
+	return out
+}
+
+// generated returns the drivers "S7": for EVERY path of the step ladder (all paths of <=2 steps
+// over the full step alphabet, functions after <=1 step; quick tier: <=1 step plus every pair
+// over the mid alphabet) one shared parsed function called by two threads on two different
+// documents. The documents are chosen by exhaustive scoring over the small document set: the
+// first document on which the path succeeds, then the first one on which it succeeds with a
+// root container of another size (else with another result, else the first on which it fails).
+func generated(tier string) []Scenario {
+	var paths []*gen.Path
+	seen := map[string]bool{}
+	add := func(l gen.Ladder) {
+		for _, u := range l.Units() {
+			for _, p := range u.Paths() {
+				t := gen.Render(p, nil).Text
+				if !seen[t] {
+					seen[t] = true
+					paths = append(paths, p)
+				}
+			}
+		}
+	}
+	add(gen.Ladder{Alpha: gen.SigmaFull(), Depth: 1, Funcs: gen.FuncSuffixes(), FuncDepth: 1})
+	add(gen.Ladder{Alpha: gen.SigmaMid(), Depth: 2})
+	if tier == "thorough" {
+		add(gen.Ladder{Alpha: gen.SigmaFull(), Depth: 2, Funcs: gen.FuncSuffixes(), FuncDepth: 1})
+	}
+	var docs []interface{}
+	var texts []string
+	for _, d := range append(gen.Docs(gen.DocSpec{MaxNodes: 3, Keys: gen.KAB, Scalars: gen.S3, MaxArr: 3}), gen.WideDocs()...) {
+		docs = append(docs, d)
+		texts = append(texts, gen.JSON(d))
+	}
+	size := func(v interface{}) int {
+		switch t := v.(type) {
+		case map[string]interface{}:
+			return len(t)
+		case []interface{}:
+			return len(t)
+		}
+		return -1
+	}
+	var out []Scenario
+	for _, p := range paths {
+		text := gen.Render(p, nil).Text
+		f, err := jsonpath.Parse(text, Config(1)...)
+		if err != nil {
+			continue
+		}
+		d1, d2, dOther, dFail := -1, -1, -1, -1
+		r1 := ""
+		for di, d := range docs {
+			o := CallOutcome(f, gen.Clone(d))
+			ok := strings.HasPrefix(o, "[")
+			switch {
+			case ok && d1 < 0:
+				d1, r1 = di, o
+			case ok && d2 < 0 && size(d) != size(docs[d1]) && o != r1:
+				d2 = di
+			case ok && dOther < 0 && o != r1:
+				dOther = di
+			case !ok && dFail < 0:
+				dFail = di
+			}
+			if d1 >= 0 && d2 >= 0 {
+				break
+			}
+		}
+		if d2 < 0 {
+			d2 = dOther
+		}
+		if d2 < 0 {
+			d2 = dFail
+		}
+		if d1 < 0 || d2 < 0 {
+			continue
+		}
+		out = append(out, Scenario{
+			Name: "S7 shared " + text, Fns: []FnSpec{{text, 1}}, Docs: []string{texts[d1], texts[d2]},
+			Threads: [][]Op{{Op{Fn: 0, Doc: 0}}, {Op{Fn: 0, Doc: 1}}},
+		})
 	}
 	return out
 }
